@@ -7,6 +7,7 @@ import (
 	"fmt"
 	"regexp"
 	"sort"
+	"strconv"
 	"strings"
 	"unicode/utf8"
 )
@@ -935,6 +936,14 @@ func FromInt(i *Term) *Term {
 	return Ite(Lt(i, IntT(0)),
 		Concat(StrT("-"), &Term{Op: "str.from_int", Args: []*Term{Neg(i)}, Sort: SString}),
 		&Term{Op: "str.from_int", Args: []*Term{i}, Sort: SString})
+}
+
+// Quote is fmt's %+q: exact on constants, the uninterpreted Q otherwise.
+func Quote(t *Term) *Term {
+	if t.IsConst() {
+		return StrT(strconv.QuoteToASCII(t.S))
+	}
+	return App("Q", SString, t)
 }
 
 func App(fn string, sort Sort, args ...*Term) *Term {
